@@ -511,7 +511,7 @@ static __inline int psParseBufTryParseBigEndianUint32(psParseBuf_t *pb,
         return 0;
     }
 
-    val = (*pb->buf.start << 24); pb->buf.start++;
+    val = ((uint32_t) *pb->buf.start << 24); pb->buf.start++;
     val |= (*pb->buf.start << 16); pb->buf.start++;
     val |= (*pb->buf.start << 8); pb->buf.start++;
     val |= *pb->buf.start; pb->buf.start++;
